@@ -1431,6 +1431,13 @@ func (broker *Broker) startRetry(wg *sync.WaitGroup) {
 			broker.error(err)
 		}
 		fh.Close()
+		if f, err := broker.Conf.Store.Sync(cached); f != nil || err != nil {
+			// The file changed while it was being hashed: the hash belongs
+			// to neither the cached size and time nor (necessarily) to what
+			// is on disk now.  The scanner will pick the file up again.
+			broker.info("Ignoring failed file that changed while hashing:", file.GetName())
+			continue
+		}
 		cache.Add(hashed)
 		log.Debug("Recomputed hash:", file.GetName(), hashed.hash)
 		cached = cache.Get(file.GetName())
